@@ -10,8 +10,13 @@ use crate::drivers::c08;
 use crate::drivers::c09::{self, TrimReq};
 use crate::drivers::c10;
 use crate::drivers::c11::{self, Op};
+use crate::drivers::c12;
+use crate::drivers::c13;
 use crate::drivers::c14;
+use crate::drivers::c15;
 use crate::drivers::c16;
+use crate::drivers::c17::{self, Lookup};
+use crate::drivers::c19;
 use crate::drivers::inherent::{self, Pert as IPert};
 use crate::drivers::common::{Cfg, PolySpec};
 use crate::engine::explore::{Limits, Verdict};
@@ -426,6 +431,44 @@ fn catalogue_inner(prop: &str, t: Tier, seed: u64, out: &mut Vec<Entry>) {
                 let mut en = e(id.to_string(), t, "evaluations, point, delta", format!("{} variables", nv), move || inherent::mlpst(nv, pert, seed)); en.funcs = fi.clone(); en.twin = pert == IPert::Twin; out.push(en);
             }
         }
+        "C15" => {
+            let f = vec!["MarlinPST13::{setup,trim,commit,open,check,divide_at_point}", "combinations::Combinations", "marlin_pst13_pc::Randomness::rand"];
+            let quick = t == Tier::Quick;
+            let g = if quick { 3 } else { 5 };
+            for nv in 1..=g {
+                for d in 1..=g {
+                    if !quick && nv + d > 8 { continue; }
+                    let mut en = e(format!("keyset/nv{}-d{}", nv, d), t, "nothing (input-free: executed and asserted on one concrete path, not solver-decided)", format!("{} variables, max degree {}", nv, d), move || c15::keyset(nv, d, seed));
+                    en.funcs = f.clone();
+                    out.push(en);
+                }
+            }
+            let mut en = e("combinations/multisets".into(), t, "nothing (concrete enumeration)", "7 value lists, every selection length".into(), c15::combinations);
+            en.funcs = f.clone();
+            out.push(en);
+            // any polynomial within the supported degree - mixed monomials included - commits, opens and verifies,
+            // and no other value is accepted: dense symbolic polynomials over all monomials
+            let shapes: Vec<(usize, usize, usize, Option<usize>)> = if quick { vec![(1, 2, 3, None), (2, 2, 3, None), (2, 2, 2, Some(1)), (3, 2, 2, None)] } else { vec![(1, 2, 3, None), (1, 3, 4, None), (2, 2, 3, None), (2, 2, 3, Some(1)), (2, 3, 3, None), (3, 2, 3, None), (3, 2, 2, Some(1))] };
+            for (nv, d, len, hid) in shapes {
+                let mut ps = PolySpec::new(len);
+                if let Some(h) = hid { ps = ps.hide(h); }
+                let mut c = Cfg::new(Size::mv(nv, d, hid.unwrap_or(0)), vec![ps]);
+                c.seed = seed;
+                c.rng_nonzero = true;
+                let b = format!("{} variables, parameters of degree {}, dense polynomial of degree {} over all its monomials, hiding {:?}", nv, d, len - 1, hid);
+                let c2 = c.clone();
+                let mut en = e(format!("open/nv{}-d{}-deg{}{}", nv, d, len - 1, if hid.is_some() { "-hiding" } else { "" }), t, "coefficients of every monomial, point, challenge, blinding", b.clone(), move || c01::honest::<Pst13>(&c2, Mode::Single));
+                en.funcs = f.clone();
+                if quick { en.lim.wall_s = 45.0; }
+                out.push(en);
+                let c2 = c.clone();
+                let mut en = e(format!("binding/nv{}-d{}-deg{}{}", nv, d, len - 1, if hid.is_some() { "-hiding" } else { "" }), t, "coefficients of every monomial, point, challenge, blinding, delta", b, move || c02::perturbed::<Pst13>(&c2, Mode::Single, Kind::Value(0), false));
+                en.funcs = f.clone();
+                en.lim.deep_first = true;
+                if quick { en.lim.wall_s = 45.0; }
+                out.push(en);
+            }
+        }
         "C16" => {
             let f = vec!["LinearCombination::{add_assign,sub_assign,mul_assign}", "evaluate_query_set", "SuccinctCheckPolynomial::{evaluate,compute_coeffs}"];
             let maxlen = if t == Tier::Quick { 2 } else { 3 };
@@ -739,6 +782,255 @@ fn catalogue_inner(prop: &str, t: Tier, seed: u64, out: &mut Vec<Entry>) {
             c11_family::<LigeroUni>(t, seed, out);
             c11_family::<LigeroMl>(t, seed, out);
             c11_family::<Brakedown>(t, seed, out);
+        }
+        "C17" => {
+            let f = vec!["kzg10::KZG10::{check_degree_is_too_large,check_hiding_bound,check_degrees_and_bounds}", "MarlinPST13::{check_degrees_and_bounds,check_hiding_bound}", "InnerProductArgPC::check_degrees_and_bounds", "HyraxPC::{setup,commit,open,check}", "PolynomialCommitment::{setup,trim,commit,batch_open,batch_check}", "MultilinearPC::{setup,commit,open,check}"];
+            let quick = t == Tier::Quick;
+            let symtxt = "polynomial coefficients (the degree is value-dependent), points, challenges";
+            let mut add = |id: String, bounds: String, run: Box<dyn Fn() -> Verdict>| {
+                let mut en = e(id, t, symtxt, bounds, move || run());
+                en.funcs = f.clone();
+                if quick { en.lim.wall_s = 45.0; }
+                out.push(en);
+            };
+            macro_rules! uni {
+                ($S:ty) => {{
+                    let name = <$S as Sch>::NAME;
+                    let (maxd, sup) = if <$S as Sch>::NAME == "ipa" { (7usize, 3usize) } else { (5, 3) };
+                    let mut c = Cfg::new(Size::uni(maxd, sup, 1), vec![PolySpec::new(sup + 2)]); c.seed = seed;
+                    let c2 = c.clone();
+                    add(format!("{}/degree-vs-supported", name), format!("{:?}, {} coefficients", c.sz, sup + 2), Box::new(move || c17::degree_too_large::<$S>(&c2)));
+                    let mut c = Cfg::new(Size::uni(maxd, sup, 1), vec![PolySpec::new(sup + 2).hide(1)]); c.seed = seed;
+                    let c2 = c.clone();
+                    add(format!("{}/degree-vs-supported-hiding", name), format!("{:?}, {} coefficients, hiding 1", c.sz, sup + 2), Box::new(move || c17::degree_too_large::<$S>(&c2)));
+                    if name != "ipa" {
+                        for (tag, h) in [("hiding-above-key", 2usize), ("hiding-far-above-key", 4), ("hiding-zero", 0)] {
+                            let mut c = Cfg::new(Size::uni(maxd, sup, 1), vec![PolySpec::new(2).hide(h)]); c.seed = seed;
+                            let c2 = c.clone();
+                            add(format!("{}/{}", name, tag), format!("{:?}, hiding bound {}", c.sz, h), Box::new(move || c17::hiding_out_of_range::<$S>(&c2)));
+                        }
+                    }
+                }};
+            }
+            uni!(Marlin);
+            uni!(Sonic);
+            uni!(Ipa);
+            {
+                let mut c = Cfg::new(Size::mv(2, 2, 1), vec![PolySpec::new(2).hide(3)]); c.seed = seed;
+                let c2 = c.clone();
+                add("pst13/hiding-above-key".into(), format!("{:?}, hiding bound 3", c.sz), Box::new(move || c17::hiding_out_of_range::<Pst13>(&c2)));
+                let mut c = Cfg::new(Size::mv(2, 2, 1), vec![PolySpec::new(2).hide(0)]); c.seed = seed;
+                let c2 = c.clone();
+                add("pst13/hiding-zero".into(), format!("{:?}, hiding bound 0", c.sz), Box::new(move || c17::hiding_out_of_range::<Pst13>(&c2)));
+            }
+            macro_rules! look {
+                ($S:ty) => {{
+                    let name = <$S as Sch>::NAME;
+                    for (tag, l) in [("unknown-label", Lookup::UnknownLabel), ("missing-evaluation", Lookup::MissingEvaluation), ("missing-commitment", Lookup::MissingCommitment)] {
+                        let mut c = Cfg::new(std_size::<$S>(t, 0), vec![PolySpec::new(2).conc(), PolySpec::new(2).conc()]).points(2, vec![(0, 0), (1, 0), (1, 1)]);
+                        c.seed = seed;
+                        c.rng_nonzero = true;
+                        let c2 = c.clone();
+                        add(format!("{}/{}", name, tag), format!("{:?}", c.sz), Box::new(move || c17::lookups::<$S>(&c2, l)));
+                    }
+                }};
+            }
+            look!(Marlin);
+            look!(Sonic);
+            look!(Ipa);
+            look!(Pst13);
+            look!(Hyrax);
+            look!(LigeroUni);
+            look!(LigeroMl);
+            look!(Brakedown);
+            add("setup/degenerate-requests".into(), "zero degree, zero/odd/missing variables, trim beyond the parameters".into(), Box::new(move || c17::setup_degenerate(seed)));
+            for which in 0..=5usize {
+                add(format!("num-vars/scenario-{}", which), "Hyrax / PST13 / multilinear PST with mismatched numbers of variables".into(), Box::new(move || c17::wrong_num_vars(which, seed)));
+            }
+            {
+                let mut c = Cfg::new(Size::mv(2, 1, 0), vec![PolySpec::new(1).conc(), PolySpec::new(1).conc()]); c.seed = seed;
+                let c2 = c.clone();
+                add("hyrax/mismatched-labels".into(), format!("{:?}", c.sz), Box::new(move || c17::mismatched_labels(&c2)));
+            }
+        }
+        "C12" => {
+            let f = vec!["CanonicalSerialize/CanonicalDeserialize/Valid impls of every UniversalParams, CommitterKey, VerifierKey, Commitment, CommitmentState, Proof, BatchProof, BatchLCProof", "check/batch_check with deserialized inputs"];
+            let quick = t == Tier::Quick;
+            let symtxt = "polynomial coefficients, points, challenges, blinding (they select option/shape variants and special values); the round trips themselves are concrete";
+            macro_rules! fam {
+                ($S:ty) => {{
+                    let name = <$S as Sch>::NAME;
+                    let mut shapes: Vec<(&str, Vec<PolySpec>, usize, Option<Vec<usize>>, bool)> = vec![];
+                    let sup = std_size::<$S>(t, 0).supported;
+                    shapes.push(("plain", vec![PolySpec::new(2), PolySpec::new(2).conc()], 0, None, false));
+                    if <$S as Sch>::HIDING && name != "hyrax" {
+                        shapes.push(("hiding", vec![PolySpec::new(2).conc().hide(1), PolySpec::new(2).conc()], 1, None, false));
+                    }
+                    if <$S as Sch>::BOUNDS {
+                        shapes.push(("bounds", vec![PolySpec::new(2).conc().bound(sup - 1), PolySpec::new(2).conc().bound(sup)], 0, Some(vec![sup, sup - 1, sup - 1]), false));
+                        shapes.push(("full-srs", vec![PolySpec::new(2).conc().bound(sup)], 0, Some(vec![sup]), true));
+                    }
+                    for (tag, polys, hid, enforced, full) in shapes {
+                        let mut sz = std_size::<$S>(t, hid);
+                        if full { sz.max_degree = sz.supported; }
+                        let n = polys.len();
+                        let mut c = Cfg::new(sz, polys).points(2, (0..n).map(|i| (i, 0)).chain([(0usize, 1usize)]).collect());
+                        c.seed = seed;
+                        c.enforced = enforced;
+                        c.rng_nonzero = true;
+                        let c2 = c.clone();
+                        let mut en = e(format!("{}/{}", name, tag), t, symtxt, format!("{:?}; polys {:?}; enforced {:?}", c.sz, c.polys, c.enforced), move || c12::artefacts::<$S>(&c2, true));
+                        en.funcs = f.clone();
+                        if quick { en.lim.wall_s = 60.0; en.lim.max_runs = 40; }
+                        out.push(en);
+                    }
+                }};
+            }
+            fam!(Marlin);
+            fam!(Sonic);
+            fam!(Ipa);
+            fam!(Pst13);
+            fam!(Hyrax);
+            fam!(LigeroUni);
+            fam!(LigeroMl);
+            fam!(Brakedown);
+        }
+        "C13" => {
+            let f = vec!["linear_codes::utils::{calculate_t,get_indices_from_sponge,reed_solomon}", "LinearCodePCS::{commit,open,check}", "generate_proof", "LinearEncode::encode (UnivariateLigero, MultilinearLigero, MultilinearBrakedown)", "SprsMat::row_mul"];
+            let quick = t == Tier::Quick;
+            let thorough = !quick;
+            {
+                let mut en = e("calculate-t/exact-grid".into(), t, "nothing (concrete oracle: exact rational evaluation of the bound at t and t-1 over a parameter grid)", "lambda x distance x codeword length grid, see driver".into(), move || c13::t_minimal(thorough));
+                en.funcs = f.clone();
+                out.push(en);
+            }
+            use ark_poly_commit::linear_codes::{MultilinearBrakedown, MultilinearLigero, UnivariateLigero};
+            use crate::engine::ro::{RoColHash, RoMT};
+            let mkc = |sz: Size, polys: Vec<PolySpec>| { let mut c = Cfg::new(sz, polys); c.seed = seed; c };
+            for (rho, sec) in [(4usize, 128usize), (2, 128), (2, 40)] {
+                for n in if quick { vec![4usize, 9] } else { vec![2usize, 4, 9, 16, 33] } {
+                    let mut sz = Size::uni(64, 64, 0);
+                    sz.ligero = (sec, rho, true);
+                    let c = mkc(sz, vec![PolySpec::new(n).conc()]);
+                    let c2 = c.clone();
+                    let mut en = e(format!("ligero-uni/cols-n{}-rho{}-sec{}", n, rho, sec), t, "point, challenges (polynomial concrete-random)", format!("{} coefficients, rho_inv {}, lambda {}", n, rho, sec), move || c13::cols_count::<LigeroUni>(&c2, (rho - 1, rho), sec));
+                    en.funcs = f.clone();
+                    if quick { en.lim.wall_s = 45.0; en.lim.max_runs = 20; }
+                    out.push(en);
+                }
+            }
+            for nv in if quick { vec![2usize, 4] } else { vec![2usize, 4, 6] } {
+                let mut sz = Size::mv(nv, 1, 0);
+                sz.ligero = (128, 2, true);
+                let c = mkc(sz, vec![PolySpec::new(1).conc()]);
+                let c2 = c.clone();
+                let mut en = e(format!("ligero-ml/cols-nv{}", nv), t, "point, challenges", format!("{} variables, rho_inv 2, lambda 128", nv), move || c13::cols_count::<LigeroMl>(&c2, (1, 2), 128));
+                en.funcs = f.clone();
+                if quick { en.lim.wall_s = 45.0; en.lim.max_runs = 20; }
+                out.push(en);
+                let c2 = c.clone();
+                let mut en = e(format!("brakedown/cols-nv{}", nv), t, "point, challenges", format!("{} variables, default parameters", nv), move || c13::cols_count::<Brakedown>(&c2, (1000 * 61, 1521 * 1000), 128));
+                en.funcs = f.clone();
+                if quick { en.lim.wall_s = 45.0; en.lim.max_runs = 20; }
+                out.push(en);
+            }
+            // linearity of the row encoding
+            for (n, m) in [(4usize, 2usize), (9, 3), (16, 4)] {
+                if quick && n == 16 { continue; }
+                let mut sz = Size::uni(64, 64, 0);
+                sz.ligero = (128, 4, true);
+                let c = mkc(sz, vec![PolySpec::new(n).conc()]);
+                let c2 = c.clone();
+                let mut en = e(format!("ligero-uni/encode-linear-m{}", m), t, "scalars a, b and both messages x, y", format!("message length {} (Reed-Solomon, rho_inv 4)", m), move || c13::encode_linear::<LigeroUni, UnivariateLigero<crate::engine::sf::SF, RoMT, UP, RoColHash>>(&c2, m));
+                en.funcs = f.clone();
+                out.push(en);
+            }
+            for nv in if quick { vec![2usize, 4] } else { vec![2usize, 4, 6] } {
+                let mut sz = Size::mv(nv, 1, 0);
+                sz.ligero = (128, 2, true);
+                let c = mkc(sz, vec![PolySpec::new(1).conc()]);
+                let m = 1usize << (nv / 2);
+                let c2 = c.clone();
+                let mut en = e(format!("ligero-ml/encode-linear-nv{}", nv), t, "scalars a, b and both messages x, y", format!("{} variables", nv), move || c13::encode_linear::<LigeroMl, MultilinearLigero<crate::engine::sf::SF, RoMT, ML, RoColHash>>(&c2, m));
+                en.funcs = f.clone();
+                out.push(en);
+                let c2 = c.clone();
+                let mut en = e(format!("brakedown/encode-linear-nv{}", nv), t, "scalars a, b and both messages x, y (sparse matrices concrete)", format!("{} variables, default parameters", nv), move || c13::encode_linear::<Brakedown, MultilinearBrakedown<crate::engine::sf::SF, RoMT, ML, RoColHash>>(&c2, m));
+                en.funcs = f.clone();
+                out.push(en);
+            }
+        }
+        "C19" => {
+            let f = vec!["CanonicalSerialize of Commitment/Proof of every scheme", "LigeroPCParams::compute_dimensions", "BrakedownPCParams::default", "calculate_t", "InnerProductArgPC::{trim,open}", "HyraxPC::{commit,open}", "MarlinPST13::open"];
+            let quick = t == Tier::Quick;
+            let symtxt = "point, challenges, blinding (polynomials concrete-random along the size ladder)";
+            let mut add = |id: String, bounds: String, run: Box<dyn Fn() -> Verdict>| {
+                let mut en = e(id, t, symtxt, bounds, move || run());
+                en.funcs = f.clone();
+                if quick { en.lim.wall_s = 45.0; en.lim.max_runs = 12; } else { en.lim.max_runs = 60; }
+                out.push(en);
+            };
+            let ladder: Vec<usize> = if quick { vec![2, 4, 16, 33] } else { vec![2, 3, 4, 8, 16, 33, 64, 128] };
+            for d in &ladder {
+                let d = *d;
+                for (tag, bound, hid) in [("plain", None, None), ("bound", Some(d), None), ("hiding", None, Some(1usize)), ("bound-hiding", Some(d), Some(1))] {
+                    if quick && (tag == "bound" || tag == "hiding") && d > 4 { continue; }
+                    let mk = move |npolys: usize| -> Cfg {
+                        let mut ps = PolySpec::new(d + 1).conc();
+                        if let Some(b) = bound { ps = ps.bound(b); }
+                        if let Some(h) = hid { ps = ps.hide(h); }
+                        let mut c = Cfg::new(Size::uni(d + 1, d, hid.unwrap_or(0)), (0..npolys).map(|_| ps.clone()).collect());
+                        c.seed = seed;
+                        c.rng_nonzero = true;
+                        c
+                    };
+                    for npolys in [1usize, 2] {
+                        if quick && npolys == 2 && d > 4 { continue; }
+                        let c = mk(npolys);
+                        let c2 = c.clone();
+                        add(format!("marlin/deg{}-{}-{}p", d, tag, npolys), format!("degree {}, {:?} {:?}", d, bound, hid), Box::new(move || c19::sizes::<Marlin>(&c2, |c, _| (1 + c.polys[0].bound.is_some() as usize, 1 + c.polys[0].hiding.is_some() as usize), true)));
+                        let c2 = c.clone();
+                        add(format!("sonic/deg{}-{}-{}p", d, tag, npolys), format!("degree {}, {:?} {:?}", d, bound, hid), Box::new(move || c19::sizes::<Sonic>(&c2, |c, _| (1, 1 + c.polys[0].hiding.is_some() as usize), true)));
+                        let c2 = c.clone();
+                        add(format!("ipa/deg{}-{}-{}p", d, tag, npolys), format!("degree {}, {:?} {:?}", d, bound, hid), Box::new(move || c19::sizes::<Ipa>(&c2, |c, _| {
+                            let rounds = ((c.sz.supported + 1).next_power_of_two()).trailing_zeros() as usize;
+                            (1 + c.polys[0].bound.is_some() as usize, 2 * rounds + 2 + 2 * (c.polys[0].hiding.is_some() as usize))
+                        }, true)));
+                    }
+                }
+            }
+            for (nv, deg) in if quick { vec![(1usize, 2usize), (2, 2), (3, 2)] } else { vec![(1, 2), (1, 4), (2, 2), (2, 3), (3, 2), (4, 2)] } {
+                for hid in [None, Some(1usize)] {
+                    let mut ps = PolySpec::new(deg + 1).conc();
+                    if let Some(h) = hid { ps = ps.hide(h); }
+                    let mut c = Cfg::new(Size::mv(nv, deg, hid.unwrap_or(0)), vec![ps]);
+                    c.seed = seed; c.rng_nonzero = true;
+                    let c2 = c.clone();
+                    add(format!("pst13/nv{}-deg{}{}", nv, deg, if hid.is_some() { "-hiding" } else { "" }), format!("{} variables degree {}", nv, deg), Box::new(move || c19::sizes::<Pst13>(&c2, |c, _| (1, c.sz.num_vars + c.polys[0].hiding.is_some() as usize), true)));
+                }
+            }
+            for nv in if quick { vec![2usize, 4] } else { vec![2usize, 4, 6, 8] } {
+                let mut c = Cfg::new(Size::mv(nv, 1, 0), vec![PolySpec::new(1).conc()]);
+                c.seed = seed; c.rng_nonzero = true;
+                let c2 = c.clone();
+                add(format!("hyrax/nv{}", nv), format!("{} variables", nv), Box::new(move || c19::sizes::<Hyrax>(&c2, |c, np| { let dim = 1usize << (c.sz.num_vars / 2); (dim, np * (3 + dim + 2)) }, true)));
+                let mut sz = Size::mv(nv, 1, 0);
+                sz.ligero = (128, 2, true);
+                let mut c = Cfg::new(sz, vec![PolySpec::new(1).conc()]);
+                c.seed = seed;
+                let c2 = c.clone();
+                add(format!("ligero-ml/nv{}", nv), format!("{} variables", nv), Box::new(move || c19::lincode::<LigeroMl>(&c2, (1, 2), 128, (2, 1), true)));
+                let c2 = c.clone();
+                add(format!("brakedown/nv{}", nv), format!("{} variables", nv), Box::new(move || c19::lincode::<Brakedown>(&c2, (1000 * 61, 1521 * 1000), 128, (1521, 1000), true)));
+            }
+            for n in if quick { vec![2usize, 4, 16, 33] } else { vec![2usize, 3, 4, 8, 16, 33, 64, 128, 257] } {
+                let mut sz = Size::uni(300, 300, 0);
+                sz.ligero = (128, 4, true);
+                let mut c = Cfg::new(sz, vec![PolySpec::new(n).conc()]);
+                c.seed = seed;
+                let c2 = c.clone();
+                add(format!("ligero-uni/n{}", n), format!("{} coefficients", n), Box::new(move || c19::lincode::<LigeroUni>(&c2, (3, 4), 128, (4, 1), true)));
+            }
         }
         "C14" => {
             let f = vec!["streaming_kzg::CommitterKey::{new,commit,batch_commit,open,open_multi_points,batch_open_multi_points}", "CommitterKeyStream::{commit,open,open_multi_points,commit_folding}", "VerifierKey::{verify,verify_multi_points}", "FoldedPolynomialTree/Stream iterators"];
